@@ -675,8 +675,39 @@ func remapInlineStatementHandles(stmt Statement, exprMap []ExpressionHandle, loc
 	case StmtAtomic:
 		out := sk
 		out.Pointer = mapH(sk.Pointer)
+		out.Fun = remapAtomicFunction(sk.Fun, mapOpt)
 		out.Value = mapH(sk.Value)
 		out.Result = mapOpt(sk.Result)
+		return Statement{Kind: out}
+	case StmtImageAtomic:
+		out := sk
+		out.Image = mapH(sk.Image)
+		out.Coordinate = mapH(sk.Coordinate)
+		out.ArrayIndex = mapOpt(sk.ArrayIndex)
+		out.Value = mapH(sk.Value)
+		return Statement{Kind: out}
+	case StmtWorkGroupUniformLoad:
+		return Statement{Kind: StmtWorkGroupUniformLoad{Pointer: mapH(sk.Pointer), Result: mapH(sk.Result)}}
+	case StmtRayQuery:
+		out := sk
+		out.Query = mapH(sk.Query)
+		out.Fun = remapRayQueryFunction(sk.Fun, mapH)
+		return Statement{Kind: out}
+	case StmtSubgroupBallot:
+		out := sk
+		out.Predicate = mapOpt(sk.Predicate)
+		out.Result = mapH(sk.Result)
+		return Statement{Kind: out}
+	case StmtSubgroupCollectiveOperation:
+		out := sk
+		out.Argument = mapH(sk.Argument)
+		out.Result = mapH(sk.Result)
+		return Statement{Kind: out}
+	case StmtSubgroupGather:
+		out := sk
+		out.Mode = remapGatherMode(sk.Mode, mapH)
+		out.Argument = mapH(sk.Argument)
+		out.Result = mapH(sk.Result)
 		return Statement{Kind: out}
 	case StmtCall:
 		// Should not occur in Phase 1 — callees are processed bottom-up
